@@ -560,10 +560,12 @@ func runC02R4(c *eng.Ctx, r *eng.RuleCtx) {
 			return true
 		}
 		fromCache := func(e ast.Expr) bool { return fromCacheD(e, 0) }
+		snapAlias := copyAliases(info, f.Decl.Body)
 		if eng.IsField(info, as.Lhs[0], objectsFld) && fromCache(as.Rhs[0]) {
 			okObj = true
 		}
-		if ix, isIx := ast.Unparen(as.Lhs[0]).(*ast.IndexExpr); isIx && eng.IsField(info, ix.X, snapshotsFld) && fromCache(as.Rhs[0]) {
+		// an entry stored into the context's snapshots map, or into the local map that becomes it
+		if ix, isIx := ast.Unparen(as.Lhs[0]).(*ast.IndexExpr); isIx && (eng.IsField(info, ix.X, snapshotsFld) || snapAlias(eng.SelObj(info, ix.X), snapshotsFld)) && fromCache(as.Rhs[0]) {
 			okSnap = true
 		}
 		if eng.IsField(info, as.Lhs[0], snapshotsFld) {
